@@ -22,13 +22,19 @@ impl<'a> PrettyPrinter<'a> {
             if math.to_untyped().children().len() == 0 {
                 return Option::None;
             }
+            // The body is followed by a line break and then something else (a comment).
+            let followed_by_break = (equation.to_untyped().children())
+                .skip_while(|it| !std::ptr::eq(*it, child))
+                .nth(1)
+                .is_some_and(|it| it.kind() == SyntaxKind::Space && it.text().has_linebreak());
             let has_trailing_linebreak = ((math.exprs().last())
                 .is_some_and(|expr| matches!(expr, Expr::Linebreak(_)))
                 || ends_with_linebreak(math.to_untyped()))
-                && (equation.to_untyped().children().nth_back(1))
-                    .is_some_and(|it| it.kind() == SyntaxKind::Space)
-                && (equation.to_untyped().children().nth_back(2))
-                    .is_some_and(|it| it.kind() == SyntaxKind::Math);
+                && (followed_by_break
+                    || (equation.to_untyped().children().nth_back(1))
+                        .is_some_and(|it| it.kind() == SyntaxKind::Space)
+                        && (equation.to_untyped().children().nth_back(2))
+                            .is_some_and(|it| it.kind() == SyntaxKind::Math));
             let body = self.convert_math(ctx, math);
             let body = if !is_block && has_trailing_linebreak {
                 body + self.arena.space()
